@@ -405,7 +405,10 @@ Definition wf_node (n : node) : bool :=
       N.ltb 0 (na n) && N.leb (nb n) 1 && Nat.leb (N.to_nat (na n) + N.to_nat (nb n)) (length ks) &&
       all_tag TIdent (firstn (N.to_nat (na n)) ks) && forallb is_expr ks
   | TTypeAssert => N.leb (na n) 1 && Nat.eqb (length ks) (N.to_nat (na n) + 1) && forallb is_expr ks
-  | TOther _ => true
+  | TOther _ =>
+      (* StructType.Fields / InterfaceType.Methods (kind codes 2 and 3) are never nil *)
+      if N.eqb (N.div (na n) 1000) 2 || N.eqb (N.div (na n) 1000) 3
+      then match ks with [fl] => is_tag TFieldList fl | _ => false end else true
   end.
 
 (* positions: membership in the scanner's token starts through a positive set *)
